@@ -5,6 +5,7 @@ import (
 	"errors"
 	"fmt"
 	"reflect"
+	"slices"
 
 	"verif/harness/common"
 
@@ -200,5 +201,58 @@ func nilElemsFork(prop string) {
 			return nil
 		}))
 		return count(fork.ToSeq(out)), []int{6, 3}
+	})
+}
+
+// A failure may be a typed nil pointer stored in an error (var e *notFound; return v, e): it is not the nil
+// error, so the element failed, and its Error method must not be called by the stages (it dereferences).
+type notFound struct{ key string }
+
+func (e *notFound) Error() string { return "not found: " + e.key }
+
+func typedNilFailures(prop string) {
+	ctx, cancel := context.WithCancel(context.Background())
+	defer cancel()
+	f := func(x int) (int, error) {
+		if x%3 == 0 {
+			var e *notFound
+			return 0, e
+		}
+		return x * 2, nil
+	}
+	xs := []int{1, 2, 3, 4, 5, 6, 7, 9, 10}
+	want := []int{2, 4, 8, 10, 14, 20}
+	nilCase(prop, "Map+StdErr/typed-nil-failure", func() (any, any) {
+		return pipe.ToSeq(pipe.StdErr(pipe.Map(ctx, pipe.Seq(xs...), pipe.Try(f)))), want
+	})
+	nilCase(prop, "Map/typed-nil-failure", func() (any, any) {
+		out, exx := pipe.Map(ctx, pipe.Seq(xs...), pipe.Try(f))
+		n := 0
+		done := make(chan struct{})
+		go func() {
+			defer close(done)
+			for e := range exx {
+				if p, ok := e.(*notFound); ok && p == nil {
+					n++
+				}
+			}
+		}()
+		got := pipe.ToSeq(out)
+		<-done
+		return fmt.Sprint(got, n), fmt.Sprint(want, 3)
+	})
+	nilCase(prop, "Map/Lift/typed-nil-failure", func() (any, any) {
+		out, exx := pipe.Map(ctx, pipe.Seq(xs...), pipe.Lift(f))
+		got := pipe.ToSeq(out)
+		var es []error
+		for e := range exx {
+			es = append(es, e)
+		}
+		return fmt.Sprint(got, len(es)), fmt.Sprint([]int{2, 4}, 1)
+	})
+	nilCase(prop, "fork.Map+StdErr/typed-nil-failure", func() (any, any) {
+		got := fork.ToSeq(fork.StdErr(fork.Map(ctx, 3, fork.Seq(xs...), fork.Try(f))))
+		slices.Sort(got)
+		return got, want
 	})
 }
